@@ -155,6 +155,8 @@ structure Lib where
   slice0 : Rows → Nat → Nat → Rows
   /-- torch.cat((a, b)) along axis 0 -/
   cat0 : Rows → Rows → Option Rows
+  /-- torch.tile(a, (k, 1, …, 1)): k copies along axis 0 -/
+  tile0 : Rows → Nat → Rows
 
 /-! ### NP: the reference library (numpy on integer tensors) -/
 
@@ -201,6 +203,7 @@ def NP : Lib where
   flip0 R := ⟨R.inner, R.rows.reverse⟩
   slice0 R i j := ⟨R.inner, (R.rows.take j).drop i⟩
   cat0 A B := if A.inner = B.inner then some ⟨A.inner, A.rows ++ B.rows⟩ else none
+  tile0 R k := ⟨R.inner, (List.replicate k R.rows).flatten⟩
 
 /-- T's primitives compute what NP's do (hypothesis of every theorem; never an axiom) -/
 structure Agree (T N : Lib) : Prop where
@@ -223,6 +226,7 @@ structure Agree (T N : Lib) : Prop where
   flip0 : ∀ R, T.flip0 R = N.flip0 R
   slice0 : ∀ R i j, T.slice0 R i j = N.slice0 R i j
   cat0 : ∀ A B, T.cat0 A B = N.cat0 A B
+  tile0 : ∀ R k, T.tile0 R k = N.tile0 R k
 
 /-! ### numpy's own ufunc semantics (the reference side of the comparison) -/
 
@@ -368,6 +372,7 @@ structure Provider where
   flip0 : Rows → Rows
   slice0 : Rows → Nat → Nat → Rows
   cat0 : Rows → Rows → Option Rows
+  tile0 : Rows → Nat → Rows
 
 def numpyP : Provider where
   ufunc := npUfunc
@@ -381,6 +386,7 @@ def numpyP : Provider where
   flip0 := NP.flip0
   slice0 := NP.slice0
   cat0 := NP.cat0
+  tile0 := NP.tile0
 
 def torchP (L : Lib) : Provider where
   ufunc := facadeUfunc L
@@ -394,6 +400,7 @@ def torchP (L : Lib) : Provider where
   flip0 := L.flip0
   slice0 := L.slice0
   cat0 := L.cat0
+  tile0 := L.tile0
 
 /-- the pinned tree's provider (for the witnesses and the driver) -/
 def torchPinnedP (L : Lib) : Provider :=
@@ -413,6 +420,7 @@ structure GP where
   flip0 : Rows → Option Rows
   slice0 : Rows → Nat → Nat → Option Rows
   cat0 : Rows → Rows → Option Rows
+  tile0 : Rows → Nat → Option Rows
 
 def Provider.guard (P : Provider) : GP where
   ufunc op a b := if a.wf && b.wf then (P.ufunc op a b).filter Flat.wf else none
@@ -426,6 +434,7 @@ def Provider.guard (P : Provider) : GP where
   flip0 R := if R.wf then (some (P.flip0 R)).filter Rows.wf else none
   slice0 R i j := if R.wf then (some (P.slice0 R i j)).filter Rows.wf else none
   cat0 A B := if A.wf && B.wf then (P.cat0 A B).filter Rows.wf else none
+  tile0 R k := if R.wf then (some (P.tile0 R k)).filter Rows.wf else none
 
 /-! ### values and the numeric core grammar -/
 
@@ -434,6 +443,8 @@ deriving DecidableEq, Repr
 
 inductive V
   | py (n : Int)                       -- Python int
+  | npy (n : Int)                      -- numpy integer scalar (np.int64), also under the torch backend:
+                                       --   what `=` returns when neither operand is a tensor
   | tn (t : Flat)                      -- integer tensor
   | ab (k : Kind) (shape : List Nat)   -- not modelled: kind and shape only (reals; integers computed from reals)
 deriving DecidableEq, Repr
@@ -467,16 +478,21 @@ deriving Repr
 
 def V.shape : V → List Nat
   | .py _ => []
+  | .npy _ => []
   | .tn t => t.shape
   | .ab _ s => s
 
 def V.kind : V → Kind
   | .py _ => .int
+  | .npy _ => .int
   | .tn _ => .int
   | .ab k _ => k
 
+/-- the operand as the provider sees it (an np.int64 is not a Python int: TorchUfunc.__call__
+    sends it down the `asarray` branch, which lifts it exactly like a Python scalar) -/
 def V.arg : V → Option Arg
   | .py n => some (.py n)
+  | .npy n => some (.py n)
   | .tn t => some (.tn t)
   | .ab _ _ => none
 
@@ -503,8 +519,17 @@ def isCmp : DOp → Bool
   | .eq | .lt | .gt => true
   | _ => false
 
+def V.isNpy : V → Bool
+  | .npy _ => true
+  | _ => false
+
+def V.isTensor : V → Bool
+  | .tn _ => true
+  | _ => false
+
 def isZeroScalar : V → Bool
   | .py n => n == 0
+  | .npy n => n == 0
   | .tn t => t.shape == [] && t.data == [0]
   | .ab _ _ => false
 
@@ -528,7 +553,17 @@ def dyad (G : GP) (op : DOp) (a b : V) : Res :=
     | none => .oom "op"
     | some e =>
       match a.arg, b.arg with
-      | some x, some y => ofFlat (G.ufunc e x y) "ufunc"
+      | some x, some y =>
+        if (op = .lt ∨ op = .gt) ∧ (a.isNpy ∨ b.isNpy) then
+          -- torch.less / torch.greater reject an np.int64 operand (TypeError) while numpy
+          -- compares: one backend raises, so the case is outside the property and the model
+          .oom "one-sided:torch-less-greater-on-numpy-scalar"
+        else if op = .eq ∧ !a.isTensor ∧ !b.isTensor then
+          -- safe_equal without a tensor: numpy object compare, the result is an np.int64
+          match G.ufunc e x y with
+          | some ⟨[], [r]⟩ => .ok (.npy r)
+          | _ => .oom "ufunc"
+        else ofFlat (G.ufunc e x y) "ufunc"
       | _, _ =>
         match bshape a.shape b.shape with
         | some s => .ok (.ab (if isCmp op then .int else joinKind a.kind b.kind) s)
@@ -549,6 +584,7 @@ def Rows.flats (R : Rows) : List Flat := R.rows.map (fun r => ⟨R.inner, r⟩)
 def overV (G : GP) (op : AOp) (a : V) : Res :=
   match a with
   | .py n => .ok (.py n)                                       -- atom: returned as it is
+  | .npy n => .ok (.npy n)
   | .ab k s =>
     match s with
     | [] => .ok (.ab k s)
@@ -578,6 +614,7 @@ def overV (G : GP) (op : AOp) (a : V) : Res :=
 def scanV (G : GP) (op : AOp) (a : V) : Res :=
   match a with
   | .py n => .ok (.py n)
+  | .npy n => .ok (.npy n)
   | .ab k s =>
     match s with
     | [] => .ok (.ab k s)
@@ -619,6 +656,7 @@ def clampIdx (len : Nat) (n : Int) : Nat :=
 def collect (G : GP) (rs : List Res) : Res :=
   let flats := rs.filterMap fun r => match r with
     | .ok (.py n) => some (Flat.scalar n)
+    | .ok (.npy n) => some (Flat.scalar n)
     | .ok (.tn t) => some t
     | _ => none
   if flats.length = rs.length then
@@ -634,6 +672,32 @@ def collect (G : GP) (rs : List Res) : Res :=
 def rowV (G : GP) (R : Rows) (len : Nat) (i : Int) : Res :=
   let j : Int := if i < 0 then i + len else i
   if 0 ≤ j ∧ j < len then ofFlat (G.row R j.toNat) "row" else .oom "index"
+
+/-- dyads.py eval_dyad_take on a list of `len` rows: a prefix / suffix, or — when more rows
+    are asked for than there are — tile, concatenate the missing part, slice -/
+def takeV (G : GP) (n : Int) (t : Flat) (R : Rows) : Res :=
+  let len := R.rows.length
+  let aa := n.natAbs
+  if len = 0 then .ok (.tn t)
+  else if aa > len then
+    match G.tile0 R (aa / len) with
+    | none => .oom "tile"
+    | some T =>
+      let tl := T.rows.length
+      let rem := aa - tl
+      let c := if 0 < n then (G.slice0 T 0 rem).bind fun S => G.cat0 T S
+               else (G.slice0 T (if rem = 0 then 0 else tl - rem) tl).bind fun S => G.cat0 S T
+      match c with
+      | none => .oom "cat"
+      | some C =>
+        let cl := C.rows.length
+        match (if n < 0 then G.slice0 C (cl - aa) cl else G.slice0 C 0 aa) with
+        | some S => .ok (.tn S.flat)
+        | none => .oom "slice"
+  else
+    match (if n < 0 then G.slice0 R (len - aa) len else G.slice0 R 0 aa) with
+    | some S => .ok (.tn S.flat)
+    | none => .oom "slice"
 
 def den (P : Provider) : Expr → List V → Res
   | .var i, env => match env[i]? with
@@ -651,6 +715,7 @@ def den (P : Provider) : Expr → List V → Res
   | .neg e, env =>
     match den P e env with
     | .ok (.py n) => ofFlat (P.guard.negative (.scalar n)) "neg"
+    | .ok (.npy n) => ofFlat (P.guard.negative (.scalar n)) "neg"
     | .ok (.tn t) => ofFlat (P.guard.negative t) "neg"
     | .ok (.ab k s) => .ok (.ab k s)
     | .undef => .oom "undefined-operand"
@@ -658,6 +723,7 @@ def den (P : Provider) : Expr → List V → Res
   | .floor e, env =>
     match den P e env with
     | .ok (.py n) => ofFlat (P.guard.floorToInt (.py n)) "floor"
+    | .ok (.npy n) => ofFlat (P.guard.floorToInt (.py n)) "floor"
     | .ok (.tn t) => ofFlat (P.guard.floorToInt (.tn t)) "floor"
     | .ok (.ab _ s) => .ok (.ab .int s)
     | .undef => .oom "undefined-operand"
@@ -676,6 +742,7 @@ def den (P : Provider) : Expr → List V → Res
     let x := env.take 3
     match den P e env with
     | .ok (.py n) => den P body (x ++ [.py n])
+    | .ok (.npy n) => den P body (x ++ [.npy n])
     | .ok (.ab k s) =>
       match s with
       | [] => den P body (x ++ [.ab k []])
@@ -684,6 +751,7 @@ def den (P : Provider) : Expr → List V → Res
         match den P body (x ++ [.ab k rest]) with
         | .ok (.ab k' s') => .ok (.ab k' (n :: s'))
         | .ok (.py _) => .ok (.ab .int [n])
+        | .ok (.npy _) => .ok (.ab .int [n])
         | .ok (.tn t) => .ok (.ab .int (n :: t.shape))
         | .undef => .oom "undefined-element"
         | .oom w => .oom w
@@ -704,6 +772,7 @@ def den (P : Provider) : Expr → List V → Res
       | some R =>
         match iv with
         | .py n => rowV P.guard R R.rows.length n
+        | .npy n => rowV P.guard R R.rows.length n
         | .tn it =>
           if it.shape = [] then
             match it.data with
@@ -717,6 +786,7 @@ def den (P : Provider) : Expr → List V → Res
     | .ok (.ab k s), .ok iv =>
       match s, iv with
       | _ :: rest, .py _ => .ok (.ab k rest)
+      | _ :: rest, .npy _ => .ok (.ab k rest)
       | _ :: rest, .tn it =>
         if it.shape = [] then .ok (.ab k rest)
         else if it.shape.length = 1 ∧ it.data ≠ [] then .ok (.ab k (it.data.length :: rest))
@@ -730,23 +800,13 @@ def den (P : Provider) : Expr → List V → Res
     | .ok (.tn t) =>
       match t.view with
       | none => .oom "take-atom"
-      | some R =>
-        if t.data.length = 0 then .ok (.tn t)
-        else if n.natAbs > t.data.length then .oom "take-tile"
-        else
-          let len := R.rows.length
-          let r := if n < 0 then P.guard.slice0 R (clampIdx len n) len else P.guard.slice0 R 0 (clampIdx len n)
-          match r with
-          | some S => .ok (.tn S.flat)
-          | none => .oom "slice"
+      | some R => takeV P.guard n t R
     | .ok (.ab k s) =>
       match s with
-      | len :: rest =>
-        if prodN s = 0 then .ok (.ab k s)
-        else if n.natAbs > prodN s then .oom "take-tile"
-        else .ok (.ab k ((if n < 0 then len - clampIdx len n else clampIdx len n) :: rest))
+      | len :: rest => if len = 0 then .ok (.ab k s) else .ok (.ab k (n.natAbs :: rest))
       | [] => .oom "take-atom"
     | .ok (.py _) => .oom "take-atom"
+    | .ok (.npy _) => .oom "take-atom"
     | .undef => .oom "undefined-operand"
     | .oom w => .oom w
   | .drop n e, env =>
@@ -765,19 +825,21 @@ def den (P : Provider) : Expr → List V → Res
       | len :: rest => .ok (.ab k ((if 0 ≤ n then len - clampIdx len n else clampIdx len n) :: rest))
       | [] => .oom "drop-atom"
     | .ok (.py _) => .oom "drop-atom"
+    | .ok (.npy _) => .oom "drop-atom"
     | .undef => .oom "undefined-operand"
     | .oom w => .oom w
   | .rev e, env =>
     match den P e env with
     | .ok (.tn t) =>
       match t.view with
-      | none => .oom "reverse-atom"
+      | none => .ok (.tn t)                                     -- not iterable: returned unchanged
       | some R =>
         match P.guard.flip0 R with
         | some S => .ok (.tn S.flat)
         | none => .oom "flip"
-    | .ok (.ab k s) => if s = [] then .oom "reverse-atom" else .ok (.ab k s)
-    | .ok (.py _) => .oom "reverse-atom"
+    | .ok (.ab k s) => .ok (.ab k s)
+    | .ok (.py n) => .ok (.py n)
+    | .ok (.npy n) => .ok (.npy n)
     | .undef => .oom "undefined-operand"
     | .oom w => .oom w
   | .join l r, env =>
@@ -832,7 +894,9 @@ partial def flatten? : Val → Option (List Nat × List Int × Bool)
 
 def valToV (v : Val) : Option V :=
   match v with
-  | .int n => some (.py n)
+  | .int n =>
+    -- a binding `a::(-3)` evaluates Negate: the value is a 0-d tensor / numpy scalar, not a Python int
+    if n < 0 then some (.tn (.scalar n)) else some (.py n)
   | .real _ => some (.ab .real [])
   | _ =>
     match flatten? v with
@@ -844,6 +908,7 @@ def showNats (l : List Nat) : String := ",".intercalate (l.map toString)
 
 def showRes : Res → String
   | .ok (.py n) => "ok:" ++ (Val.int n).toWire
+  | .ok (.npy n) => "ok:" ++ (Val.int n).toWire
   | .ok (.tn t) => "ok:" ++ (nest t.shape t.data).toWire
   | .ok (.ab .int s) => s!"ab:int:{showNats s}"
   | .ok (.ab .real s) => s!"ab:real:{showNats s}"
@@ -952,6 +1017,9 @@ def prim (name : String) (args : List Flat) : String :=
     | some R, [x], [y] => showFlat (NP.slice0 R x.toNat y.toNat).flat
     | _, _, _ => "bad-op"
   | ["stack"], ts => showOR (NP.stack ts)
+  | ["tile0"], [a, k] => match a.view, k.data with
+    | some R, [x] => showFlat (NP.tile0 R x.toNat).flat
+    | _, _ => "bad-op"
   | ["cat0"], [a, b] => match a.view, b.view with
     | some A, some B => showOR (NP.cat0 A B)
     | _, _ => "bad-op"
